@@ -534,6 +534,10 @@ class Judge:
                     gained = sorted((got - expect).elements())
                     sig = "unclassified"
                     old_lines = pylines(old_text)
+                    if code == "attribute_is_never_set" and not lost and gained and all(k[3] == "unused_ignore" and k[1] == L for k in gained):
+                        # the comment just added for a diagnostic of the end-of-run attribute checker
+                        # is reported as unused by the file's own pass, which runs earlier
+                        sig = "late-attribute-checker-diagnostic-vs-unused-ignore"
                     if L >= 2 and old_lines[L - 2].strip().startswith(IGNORE) and any(k[3] == "unused_ignore" or k[1] == L + 1 for k in gained):
                         sig = "second-comment-displaced-first:two-codes-on-one-line"
                     if L == 1 or all(l.startswith("#") or not l.strip() for l in pylines(old_text)[: L - 1]):
@@ -744,6 +748,8 @@ class Judge:
             sig = "unclassified"
             if "Iteration Limit" in str(res.get("raised")):
                 sig = "iteration-limit"
+                if "unused_ignore" in (e.get("enable") or []) and any(d["code"] == "attribute_is_never_set" for d in P or []):
+                    sig = "iteration-limit:late-attribute-checker-diagnostic-vs-unused-ignore"
                 # two different codes on one line?
                 by_line = collections.defaultdict(set)
                 for d in P or []:
